@@ -906,9 +906,9 @@ def truth_table(info, v, m=None, floaty=False):
         nonreal = abs(im) > m
         isreal = (q is not None and q.im == 0) or (bool(info.real) and not nonreal)
         if info.real and nonreal:
-            raise engine.GeneratorDefect("class tracker says real, numeric value %s is not" % v)
+            raise Unjudgeable("oracle_inconsistent:class tracker says real, numeric value is not")
         if q is not None and abs(mpc(mpf(q.re.numerator) / q.re.denominator, mpf(q.im.numerator) / q.im.denominator) - v) > m:
-            raise engine.GeneratorDefect("exact value %r and numeric value %s disagree" % (q, v))
+            raise Unjudgeable("oracle_inconsistent:exact and numeric value disagree")
         T = {}
         if q is not None:
             rq = q.im == 0
